@@ -574,11 +574,17 @@ def subscript(self, base, idx):
         # literal[:self.n] where the constructor restricts n to a few constants: one alternative per value
         lo, hi, st = ia0.args
         ha = hi.single_atom()
-        if ha is not None and ha.kind == 'attr' and isinstance(ha.args[1], str) and T._isnone(st) and lo.const() is not None:
-            ci = self.class_of(ha.args[0])
+        if ha is not None and ha.kind in ('attr', 'sym') and T._isnone(st) and lo.const() is not None:
             dom = None
-            for c in (ci.mro() if ci is not None else []):
-                dom = dom or getattr(self.prog, 'attr_domains', {}).get((c.qual, ha.args[1]))
+            if ha.kind == 'attr' and isinstance(ha.args[1], str):
+                ci = self.class_of(ha.args[0])
+                if ci is None and self.frames and self.frames[-1].self_term is not None and \
+                        self.frames[-1].self_term.key == ha.args[0].key:
+                    ci = self.frames[-1].self_cls
+                for c in (ci.mro() if ci is not None else []):
+                    dom = dom or getattr(self.prog, 'attr_domains', {}).get((c.qual, ha.args[1]))
+            # (a parameter the function has asserted to lie in a few constants: `assert num_pols in [1, 2]`)
+            dom = dom or self.asserted_domains.get(hi.key)
             if dom:
                 vals = sorted(dom, reverse=True)
                 out = T.mk_sub(base, T.mk_slice(lo, Term.num(vals[-1]), st))
